@@ -78,10 +78,11 @@ def coq_files():
 
 
 def write_coqproject():
-    """_CoqProject lists every .v under Model/ Spec/ Proofs/ Props/ (Extract/*.v are compiled
-       separately, in the directory where the extracted OCaml must land)"""
+    """_CoqProject lists every .v under Model/ Gen/ Spec/ Proofs/ Props/ (Extract/*.v are compiled
+       separately, in the directory where the extracted OCaml must land); Gen/ = models generated from the Go
+       sources by tools/go2coq (regen_models)"""
     files = []
-    for d in ("Model", "Spec", "Proofs", "Props"):
+    for d in ("Model", "Gen", "Spec", "Proofs", "Props"):
         files += sorted(os.path.relpath(f, COQ) for f in glob.glob(os.path.join(COQ, d, "*.v")))
     txt = "-Q . SV\n" + "\n".join(files) + "\n"
     cp = os.path.join(COQ, "_CoqProject")
@@ -105,6 +106,70 @@ def coq_build(targets, timeout=3000):
         ensure_makefile()
         rc, out = sh(["timeout", str(timeout), "make", "-j16"] + targets, cwd=COQ)
     return rc, out
+
+
+def build_go2coq():
+    """tools/go2coq (Go -> Gallina translator, stdlib only) -> build/go2coq; rebuilt when a source is newer"""
+    src = os.path.join(VERIF, "tools", "go2coq")
+    out = os.path.join(BUILD, "go2coq")
+    deps = glob.glob(os.path.join(src, "*.go")) + [os.path.join(src, "go.mod")]
+    if os.path.exists(out) and all(os.path.getmtime(out) >= os.path.getmtime(x) for x in deps):
+        return 0, "up to date"
+    os.makedirs(BUILD, exist_ok=True)
+    rc, o = sh(["timeout", "600", "go", "build", "-o", out + ".new", "."], cwd=src, env=GOENV)
+    if rc == 0:
+        os.replace(out + ".new", out)
+    return rc, o
+
+
+def regen_models(pid):
+    """If lib/go2coq.d/<pid>.json exists: regenerate coq/Gen/<pid>Gen.v from REPO's working tree (the file is
+       rewritten only when its text changes, so make recompiles exactly then). The caller holds Lock("coq").
+       Returns (info for the evidence or None, problem text or None)."""
+    spec = os.path.join(VERIF, "lib", "go2coq.d", pid + ".json")
+    if not os.path.exists(spec):
+        return None, None
+    t0 = time.time()
+    info = {"translator": "tools/go2coq", "spec": os.path.relpath(spec, VERIF), "source_tree": REPO}
+    rc, out = build_go2coq()
+    if rc != 0:
+        info["error"] = "tools/go2coq does not build"
+        return info, "translator: tools/go2coq does not build: " + out[-300:]
+    rc, out = sh([os.path.join(BUILD, "go2coq"), "-repo", REPO, "-verif", VERIF, "-spec", spec], env=GOENV, timeout=600)
+    res = {}
+    for l in out.splitlines():
+        if l.startswith("{"):
+            try:
+                res = json.loads(l)
+            except ValueError:
+                pass
+    info["wall_s"] = round(time.time() - t0, 2)
+    if rc != 0 or res.get("error"):
+        msg = res.get("error") or out.strip()[-300:]
+        info["error"] = msg
+        return info, "translator: " + msg
+    gen = res.get("out", "")
+    info.update({"generated_file": gen, "functions": res.get("functions", []),
+                 "rewritten_this_run": bool(res.get("written"))})
+    # does the text generated from the current tree differ from the committed one?
+    rc, committed = sh(["git", "-C", VERIF, "show", "HEAD:" + gen])
+    try:
+        now = open(os.path.join(VERIF, gen), errors="replace").read()
+        info["differs_from_committed"] = (rc != 0) or committed != now
+    except OSError:
+        info["differs_from_committed"] = True
+    return info, None
+
+
+def regen_all_models():
+    """bin/setup: regenerate every generated model before the Coq build"""
+    ok = True
+    for f in sorted(glob.glob(os.path.join(VERIF, "lib", "go2coq.d", "C*.json"))):
+        info, problem = regen_models(os.path.basename(f)[:-5])
+        if problem:
+            print(problem)
+            ok = False
+    return ok
 
 
 def forbidden_scan():
@@ -434,6 +499,10 @@ def main(argv):
     notes = []
 
     # ---------- (1) Coq ----------
+    with Lock("coq"):
+        gen_info, gen_problem = regen_models(pid)
+    if gen_problem:
+        problems.append(gen_problem)
     targets = ["Props/%s.vo" % pid]
     rc, out = coq_build(targets)
     coq_ok = rc == 0
@@ -662,6 +731,7 @@ def main(argv):
                 "model_output_classes": classes,
                 "change_amplification": {"fingerprint_files": len(fp_now), "baseline_recorded": fp_base is not None,
                                          "changed_files": changed_files, "extra_rounds": amp_rounds},
+                **({"generated_models": gen_info} if gen_info else {}),
             },
             "modelled_not_verified": P.get("modelled", []),
         },
